@@ -52,7 +52,7 @@ def pre_build():
 
 
 def cases(rng, tier):
-    return S.gen_cases(rng, tier, 700 if tier == "quick" else 5000)
+    return S.gen_cases(rng, tier, 600 if tier == "quick" else 3500)
 
 
 def search_cases(rng, tier):
